@@ -39,6 +39,28 @@ impl Engine {
             } else if refused && self.succ_mutations >= 1 && self.model.count() >= 3 {
                 self.pending_refusal = true;
             }
+            if self.oracles.shadow_nonzero {
+                let d = self.io.data.lock().unwrap();
+                if self.ever_nonzero.len() < d.len() {
+                    self.ever_nonzero.resize(d.len(), false);
+                }
+                for (i, &b) in d.iter().enumerate() {
+                    if b != 0 {
+                        self.ever_nonzero[i] = true;
+                    }
+                }
+            }
+            if !refused {
+                match op {
+                    Op::RemoveStream { .. } | Op::RemoveStorage { .. } | Op::RemoveStorageAll { .. } => self.ev_removed_any = true,
+                    Op::CreateStream { .. } | Op::CreateNewStream { .. } | Op::CreateStorage { .. } | Op::HCreate { .. } => {
+                        if self.ev_removed_any {
+                            self.ev_slot_reused = true;
+                        }
+                    }
+                    _ => {}
+                }
+            }
             if self.oracles.track_tables {
                 let after = self.model_bytes();
                 if after < bytes_before {
@@ -590,6 +612,7 @@ impl Engine {
                             let held = self.handles.iter().flatten().any(|h| p.find_id(&h.path) == Some(pred));
                             if held {
                                 self.stats.bump("removal_two_children_pred_has_handle");
+                                self.ev_pred_removed = true;
                             }
                         }
                     } else {
